@@ -1,10 +1,31 @@
-import MazeVerif.DriverOps.Util
+import MazeVerif.DriverOps.C10
+import MazeVerif.Model.Raster
 namespace MZ.Drv.C17
-open Lean MZ.Drv
+open Lean MZ.Drv MZ.Pix MZ.Drv.C10
 
-/-- driver ops of property C17 (`"op": "C17.<name>"`) -/
-def handle (op : String) (_j : Json) : R Json := do
+/-- ops:
+  * `C17.process` {maze, ric, ext, eo} → model `(input, target)` images of `process_maze_rasterized_input_target`;
+  * `C17.post` {pixels, what: "ric"|"ext"} → `_remove_isolated_cells` / `_extend_pixels` on an arbitrary image;
+  * `C17.batch` {n, idxs} → `get_batch` over a dataset of `n` items whose item `k` has input `2k`, target `2k+1`. -/
+def handle (op : String) (j : Json) : R Json := do
   match op with
+  | "C17.process" =>
+    let m ← parseMaze (← fld j "maze")
+    let r := processRaster m (← getBool j "ric") (← getBool j "ext") (← getBool j "eo")
+    pure <| obj [("out", jExcept (fun (p : Img RGB × Img RGB) => obj [("input", jImg p.1), ("target", jImg p.2)]) r)]
+  | "C17.post" =>
+    let g ← parseImg (← fld j "pixels")
+    match ← getStr j "what" with
+    | "ric" => pure <| obj [("out", jImg (removeIsolated g))]
+    | "ext" => pure <| obj [("out", jImg (extendPixels g))]
+    | w => throw s!"what {w}"
+  | "C17.batch" =>
+    let n ← getNat j "n"
+    let idxs : Option (List Int) ← match optFld j "idxs" with
+      | none => pure none
+      | some v => do pure (some (← asIntList v))
+    let r := getBatchPy (List.range n) (fun k => (.ok (2 * k, 2 * k + 1) : Except Err (Nat × Nat))) idxs
+    pure <| obj [("out", jExcept (fun (p : List Nat × List Nat) => obj [("inputs", jNats p.1), ("targets", jNats p.2)]) r)]
   | _ => throw s!"unknown op {op}"
 
 end MZ.Drv.C17
